@@ -49,6 +49,28 @@ func (h *hist) splitOf(nonce uint64) int {
 	}
 }
 
+// stakes at the delegate bounds (threshold 10 000 FX, threshold x multiple = 100 000 FX, one power unit = 100 FX)
+func boundaryStake(r *lib.Rand) int64 {
+	switch r.Intn(10) {
+	case 0:
+		return 10_000
+	case 1:
+		return 10_100
+	case 2:
+		return 10_099 // one FX below the next unit
+	case 3:
+		return 100_000
+	case 4:
+		return 99_900
+	case 5:
+		return 99_999
+	case 6:
+		return 10_001
+	default:
+		return stakeDraw(r)
+	}
+}
+
 func stakeDraw(r *lib.Rand) int64 {
 	switch r.Intn(8) {
 	case 0:
@@ -89,11 +111,21 @@ func generate(h *hist, r *lib.Rand, idx int) {
 	if longRun {
 		n = 1 + r.Pick(2)
 	}
-	if lib.Tier() == "thorough" && idx%10 == 0 {
+	if tier() == "thorough" && idx%10 == 0 {
 		n = 8 + r.Pick(33)
 	}
 	if idx%7 == 3 {
 		n = 3 + r.Pick(3)
+	}
+	// the property's range: up to 100 oracles, stakes at the delegate bounds (thorough: every 5th history; quick: one)
+	bigSet := (tier() == "thorough" && idx%5 == 1) || (tier() != "thorough" && idx == 5)
+	if bigSet {
+		n = 50 + r.Pick(51)
+		if tier() != "thorough" {
+			n = 50 + r.Pick(15)
+		}
+		longRun = false
+		h.light = true
 	}
 	universe := n + 2
 	if universe > maxOracles {
@@ -103,14 +135,25 @@ func generate(h *hist, r *lib.Rand, idx int) {
 	for i := 0; i < n; i++ {
 		proposal = append(proposal, i)
 	}
-	if r.Chance(30) {
+	if r.Chance(30) && n < 100 {
 		proposal = append(proposal, n) // approved but not (yet) bonded
+	}
+	if bigSet && r.Chance(30) {
+		// one more than the code allows: refused as a whole
+		var over []int
+		for i := 0; i < 101; i++ {
+			over = append(over, i)
+		}
+		h.apply(Op{Kind: "gov", List: over})
 	}
 	h.apply(Op{Kind: "gov", List: proposal})
 	for i := 0; i < n; i++ {
 		st := stakeDraw(r)
 		if idx%6 == 1 {
-			st = 10_000 + int64(i)*3_300 + int64(r.Intn(3))*100
+			st = 10_000 + int64(i%28)*3_300 + int64(r.Intn(3))*100
+		}
+		if bigSet {
+			st = boundaryStake(r)
 		}
 		h.apply(Op{Kind: "bond", Oracle: i, Bridger: i, Ext: i, Stake: st})
 	}
@@ -119,12 +162,18 @@ func generate(h *hist, r *lib.Rand, idx int) {
 		h.apply(Op{Kind: "window", Window: uint64(2 + r.Pick(3))})
 	}
 	nOps := 25 + r.Pick(40)
-	if lib.Tier() == "thorough" {
+	if tier() == "thorough" {
 		nOps = 30 + r.Pick(120)
 	}
 	if longRun {
 		nOps = 700
 		h.light = true
+	}
+	if bigSet {
+		nOps = 450
+		if tier() == "thorough" {
+			nOps = 900
+		}
 	}
 	inList := func(l []int, v int) bool {
 		for _, x := range l {
@@ -350,18 +399,57 @@ func generate(h *hist, r *lib.Rand, idx int) {
 			}
 			h.apply(Op{Kind: "edit", Oracle: id, Bridger: b})
 		default: // ---- a block boundary: the real end blocker (slashing of non-confirming oracles, oracle set request) ----
-			var conf []int
-			for _, i := range online {
-				// in the real-slash histories about a third of the oracles never confirm oracle sets
-				if !realSlash || hash2(uint64(h.seed)+99, uint64(i))%3 != 0 {
-					conf = append(conf, i)
+			if h.module != "tron" {
+				// diligent oracles confirm what is open (in the real-slash histories about a third of the oracles never do)
+				for _, i := range online {
+					if realSlash && hash2(uint64(h.seed)+99, uint64(i))%3 == 0 {
+						continue
+					}
+					rec := recOf(ob, i)
+					_ = rec
+					confirmAll := func(kind string, l []objObs) {
+						for _, x := range l {
+							done := false
+							for _, c := range x.confirms {
+								if c == int64(i) {
+									done = true
+								}
+							}
+							if !done && (realSlash || r.Chance(30)) {
+								h.apply(Op{Kind: "confirm", CKind: kind, Nonce: x.key, Ext: i})
+							}
+						}
+					}
+					confirmAll("oset", ob.osets)
+					confirmAll("batch", ob.batches)
+					confirmAll("bcall", ob.bcalls)
 				}
 			}
-			o := Op{Kind: "block", List: conf}
+			o := Op{Kind: "block"}
 			if r.Chance(25) {
 				o.Days = 22 // beyond the unbonding period: removed oracles can now unbond
 			}
 			h.apply(o)
+		}
+		// objects the oracles have to confirm, stray confirmations, window changes (eth-style chains)
+		if h.module != "tron" && r.Chance(6) {
+			switch r.Intn(6) {
+			case 0:
+				h.apply(Op{Kind: "batch"})
+			case 1, 2:
+				h.apply(Op{Kind: "bcall"})
+			case 3:
+				if realSlash {
+					h.apply(Op{Kind: "window", Window: uint64(2 + r.Pick(4))})
+				}
+			default:
+				kind := []string{"oset", "batch", "bcall"}[r.Pick(3)]
+				ext := r.Pick(universe)
+				if r.Chance(10) {
+					ext = spareExt + r.Pick(3)
+				}
+				h.apply(Op{Kind: "confirm", CKind: kind, Nonce: uint64(1 + r.Pick(6)), Ext: ext})
+			}
 		}
 		// an oracle leaves for good and (perhaps) comes back: removal, maturity, unbond — re-approval and re-bond
 		// are left to the ordinary governance / bond operations
@@ -508,6 +596,33 @@ func scripted() []scenario {
 					note(rep, fmt.Sprintf("re-entrant callback scenario: callbacks ran %d and %d times (expected 1 and 1)", h.handlerRuns(1), h.handlerRuns(2)))
 				}
 			},
+		},
+		{
+			// the three loops of the end blocker's slashing phase (signed window 2): an oracle set, a batch and a bridge call,
+			// each confirmed by some oracles only; the model (M_EndBlock.slashing) must predict who goes offline and when
+			Name: "endblock-three-loops", Module: "eth",
+			Ops: []Op{
+				{Kind: "gov", List: []int{0, 1, 2, 3}},
+				{Kind: "bond", Oracle: 0, Bridger: 0, Ext: 0, Stake: 20_000}, {Kind: "bond", Oracle: 1, Bridger: 1, Ext: 1, Stake: 20_000},
+				{Kind: "bond", Oracle: 2, Bridger: 2, Ext: 2, Stake: 30_000}, {Kind: "bond", Oracle: 3, Bridger: 3, Ext: 3, Stake: 30_000},
+				vote(2, 1, "token", 0), vote(3, 1, "token", 0), vote(0, 1, "token", 0), // event 1 observed: bridge calls possible
+				{Kind: "window", Window: 2},
+				{Kind: "block"}, // oracle set 1 at height 1
+				{Kind: "bcall"}, {Kind: "batch"}, {Kind: "batch"}, // second batch in the same block: refused
+				{Kind: "confirm", CKind: "oset", Nonce: 1, Ext: 0}, {Kind: "confirm", CKind: "oset", Nonce: 1, Ext: 1}, {Kind: "confirm", CKind: "oset", Nonce: 1, Ext: 2},
+				{Kind: "confirm", CKind: "oset", Nonce: 1, Ext: 2},  // twice: refused
+				{Kind: "confirm", CKind: "oset", Nonce: 9, Ext: 3},  // no such set
+				{Kind: "confirm", CKind: "bcall", Nonce: 1, Ext: 0}, {Kind: "confirm", CKind: "bcall", Nonce: 1, Ext: 3},
+				{Kind: "confirm", CKind: "batch", Nonce: 2, Ext: 0}, {Kind: "confirm", CKind: "batch", Nonce: 2, Ext: 2},
+				{Kind: "confirm", CKind: "batch", Nonce: 2, Ext: spareExt}, // external address of nobody
+				{Kind: "block"}, {Kind: "block"}, {Kind: "block"}, // height 4: oracle set 1 is due: oracle 3 goes offline
+				vote(3, 2, "fx", 0), // refused: offline
+				{Kind: "block"}, {Kind: "block"}, // batch (height 2) and bridge call (height 2) become due: oracles 1 and 2 follow
+				{Kind: "add", Oracle: 3, Stake: 24_000}, // pays the slash amount: online again from this height on
+				{Kind: "block"}, {Kind: "block"},
+				vote(0, 2, "fx", 0), vote(3, 2, "fx", 0),
+			},
+			Check: func(h *hist, rep *lib.Report) {},
 		},
 		{
 			// slashed oracle cannot vote; votes of an oracle that left (record deleted) count nothing
